@@ -355,6 +355,86 @@ pub fn run(ctx: &Ctx) -> Report {
     });
     rep.merge(r);
 
+    // ---- behind a NULL: rows [NULL, v] where the two columns differ in width and signedness and v is
+    //      written as the Rust type that matches the SECOND column exactly (acceptance is mandatory):
+    //      the cell is judged against its own column, not against the one the NULL stood in
+    let n = if ctx.miri { 4 } else { ctx.n(1200, 40_000) };
+    let r = par_cases(ctx, "C15", "behind-a-null", n, |rng, i, rep| {
+        let yi = (i % 12) as usize;
+        let (yc, yu) = (yi / 2, yi % 2 == 1);
+        // the first column: another width, and the other signedness
+        let xc = (yc + 1 + rng.usize(5)) % 6;
+        let xu = !yu;
+        let (ct, t, cname) = COLS[yc];
+        let bits = match t { wire::T_TINY => 8, wire::T_SHORT | wire::T_YEAR => 16, wire::T_INT24 | wire::T_LONG => 32, _ => 64 };
+        // a value of the half of the range that the first column could not hold
+        let v: i128 = if yu { (1i128 << bits) - 1 - rng.below(3) as i128 } else { -(1i128 << (bits - 1)) + rng.below(3) as i128 };
+        let cell = match (bits, yu) {
+            (8, false) => V::I8(v as i8),
+            (8, true) => V::U8(v as u8),
+            (16, false) => V::I16(v as i16),
+            (16, true) => V::U16(v as u16),
+            (32, false) => V::I32(v as i32),
+            (32, true) => V::U32(v as u32),
+            (_, false) => V::I64(v as i64),
+            (_, true) => V::U64(v as u64),
+        };
+        let cols = vec![
+            Column { table: "t".into(), column: "x".into(), coltype: COLS[xc].0, colflags: flags_for(xu, rng.next()) & !ColumnFlags::NOT_NULL_FLAG },
+            Column { table: "t".into(), column: "y".into(), coltype: ct, colflags: flags_for(yu, rng.next()) },
+        ];
+        let nullcell = Cell { v: V::Null, form: if rng.bool() { Form::Val } else { Form::Ref } };
+        let ops = match i % 3 {
+            0 => vec![QOp::Start(0), QOp::Col(nullcell), QOp::TryCol(Cell::val(cell.clone())), QOp::TryEndRow, QOp::Finish],
+            _ => vec![QOp::Start(0), QOp::TryRow(vec![nullcell, Cell::val(cell.clone())], if i % 3 == 1 { RowForm::Owned } else { RowForm::Borrowed }), QOp::Finish],
+        };
+        let cmds = vec![Cmd::prepare(b"p"), Cmd::execute(1, &[], false), Cmd::ping()];
+        let scripts = vec![Script::PrepOk { id: 1, params: vec![], cols: cols.clone() }, Script::Q(QProg { colsets: vec![cols.clone()], ops, on_err: OnErr::Drop })];
+        let obs = run_case(&varied_case(rng, cmds, scripts));
+        rep.evaluations += 1;
+        if harness_panic(&obs, rep) {
+            return;
+        }
+        rep.counters.class(format!("behind a NULL in a {}/{} column: {}/{}", COLS[xc].2, if xu { "unsigned" } else { "signed" }, cname, if yu { "unsigned" } else { "signed" }));
+        let d = || J::obj().set("first_column", format!("{}/{} (NULL)", COLS[xc].2, if xu { "unsigned" } else { "signed" })).set("second_column", format!("{}/{}", cname, if yu { "unsigned" } else { "signed" })).set("value", format!("{:?}", cell)).set("outcome", obs.outcome.describe());
+        if i < 2 {
+            rep.sample(d());
+        }
+        if let Outcome::Panic { file, line, msg } = &obs.outcome {
+            rep.violations.push(viol("C15", format!("C15 behind-a-null {}", panic_signature(file, *line, msg)), format!("a value that fits its column exactly was refused loudly behind a NULL: {}", obs.outcome.describe()), d()));
+            return;
+        }
+        let refused = obs.log.cbs.iter().any(|c| matches!(c.kind, CbKind::Execute { .. }) && c.results.iter().any(|r| r.err.is_some()));
+        if refused {
+            rep.violations.push(viol("C15", format!("C15 must-accept-refused behind a NULL col={}/{}", cname, if yu { "unsigned" } else { "signed" }), format!("{:?} fits a {} {} column exactly and was refused when a NULL stood in the column before it", cell, if yu { "unsigned" } else { "signed" }, cname), d()));
+            return;
+        }
+        let Ok((_, _, dec)) = decode_output(&obs) else {
+            rep.violations.push(viol("C15", "C15 behind-a-null undecodable".into(), "the output is not well framed".into(), d()));
+            return;
+        };
+        if let Some(crate::wire::Resp::Parts(parts)) = dec.resps.get(3) {
+            if let Some(crate::wire::Part::Rows { rows, cols: defs, .. }) = parts.first() {
+                let adv: Vec<(u8, u16)> = defs.iter().map(|c| (c.typ, c.flags)).collect();
+                match rows.first().map(|r| wire::decode_bin_row(r, &adv)) {
+                    Some(Ok(vals)) if vals.len() == 2 => {
+                        if vals[0] != wire::BinVal::Null || vals[1] != wire::BinVal::Int(v) {
+                            rep.violations.push(viol("C15", format!("C15 altered behind a NULL col={}/{}", cname, if yu { "unsigned" } else { "signed" }), format!("the row [NULL, {}] arrives as {:?}", v, vals), d()));
+                            return;
+                        }
+                        rep.counters.inc("cells_behind_a_null_exact");
+                    }
+                    other => {
+                        rep.violations.push(viol("C15", "C15 behind-a-null undecodable".into(), format!("the row [NULL, {}] does not decode with the received definitions: {:?}", v, other), d()));
+                    }
+                }
+                return;
+            }
+        }
+        rep.violations.push(viol("C15", "C15 behind-a-null undecodable".into(), format!("no resultset in the reply: {:?}", dec.stop), d()));
+    });
+    rep.merge(r);
+
     // ---- whole sessions: several binary resultsets of different widths on one connection (text
     //      queries in between), every cell a must-accept (Rust type, column) pair: whatever the
     //      writer keeps between rows, resultsets and commands, each number must arrive exactly
